@@ -139,6 +139,52 @@ CHECKS = {
    design_ref="DESIGN.md §7 C10",
    technique="Lean 4 induction over operation sequences of an abstract state machine + history-vs-fresh differential check",
    note=BASE_NOTE + " Known finding: a failed fix_stress call corrupts the stored matrix (KF1b)."),
+ "C14": dict(
+   category="proof",
+   text="Token-level model of the Surface Evolver parser (section location with the code's relative-index arithmetic, field extraction, the "
+        "three-way face-line automaton, pressures by position, rounding, create_lattice, orphan and faceless-edge removal, Frame(gt=True) means). "
+        "Theorems: print/parse round trip of faces for every wrapping, section boundaries round trip for dumps laid out like the shipped ones "
+        "(and a witness that a missing blank line drops a record), edge field rule incl. the bare line, cell cycle = tail vertices of the "
+        "signed loop, no vertex without cell and no edge of no face survives, consistency through C09's theorems, interface reference = mean of "
+        "its mesh edges. Per run: an independent serialiser (ids with gaps, negative references, faces of 3..60 edges wrapped anywhere, with/"
+        "without density, orphans, chords, CRLF/LF) -> real parser compared with the generating data per clause, and with the model on Python's "
+        "own tokens, exactly; the shipped dumps go through the model as well.",
+   design_ref="DESIGN.md §7 C14",
+   technique="Lean 4 theorems over a token-level parser model + independent serialiser round trip + exact differential check",
+   note=BASE_NOTE + " Python's str.split/float/int/round are the trusted tokeniser. Known finding D24: pressures attached by position (bodies listed in another order than faces)."),
+ "C17": dict(
+   category="proof",
+   text="Model of get_intensities (both branches), window construction, median, band walking (ceil, axis choice, interpolation, truncation to "
+        "pixels, set semantics), normalisation, keying and write-back. Theorems: window size/membership, median of odd/even lists, the band "
+        "holds each pixel once, intensity scales linearly with the image (c>=0) and is unchanged by scaling under 'average' (c>0), uniform image "
+        "=> equal window statistics, 'average' => mean one (mean != 0), keys 0..n-1 in list order, gt written in order also for repeated "
+        "interfaces. Per run: random float/8-bit images, tissues placed by rescale/offset, layers 0..3, integrate on/off, repeated and "
+        "equal-valued interfaces: every clause on the real code and intensities/keys/gt against the model (1e-9 / exactly).",
+   design_ref="DESIGN.md §7 C17",
+   technique="Lean 4 theorems over Rat model of the window/band statistic + differential check against forsys.myosin",
+   note=BASE_NOTE + " PIL.Image.getpixel is the trusted pixel oracle (truncates toward zero; probed per image mode). The 'uniform image' clause is read for the non-integrated statistic."),
+ "C18": dict(
+   category="proof",
+   text="Model of stress_tensor (bins, radius selection on squared distances, pressure and tension sums, string key, dictionary overwrite) and of "
+        "the tensors handed to eig. Theorems: every tensor symmetric; zero outside the radius; jointly linear in (pressures, tensions); -p*I "
+        "for pure pressure; bin edges/centres; the key is injective for grid<=11 and collides at grid 12 (witnesses) so that principal_stress "
+        "then reports another cell's tensor (known finding KF2). Per run: tensors, keys and principal inputs compared with the model (1e-10 / "
+        "exactly) and each clause evaluated on the real code with arbitrary assigned pressures/tensions, grids 1..12, radii 0.5..6.",
+   design_ref="DESIGN.md §7 C18",
+   technique="Lean 4 theorems over Rat model of the coarse-grained tensor + differential check against forsys.stress_tensor",
+   note=BASE_NOTE + " np.histogram's edges, sqrt/pi in the radius and np.linalg.eig are trusted/external."),
+ "C19": dict(
+   category="proof",
+   text="Model of create_lattice_elements / create_lattice given Qhull's output. Theorems for all inputs: 3-decimal rounding idempotent, "
+        "line_eq end-point values incl. the vertical branch, cut-off rule, vertex interning injective on rounded coordinates, a shared ridge "
+        "gets the same mesh edge up to sign and no edge joins a vertex to itself, one cell per kept region, every final cycle has area sign -1 "
+        "(uniform orientation), the lists handed to the constructors are well-formed and the lattice is consistent (through C09). Per run: "
+        "random / jittered / exactly square / exactly hexagonal centre sets (6..300 points, with/without the helper ring, cut-offs from tight "
+        "to infinite): the dictionaries compared exactly with the model on Qhull's actual output and each clause against an independent "
+        "computation from scipy.spatial.Voronoi.",
+   design_ref="DESIGN.md §7 C19",
+   technique="Lean 4 theorems over Rat model of lattice construction from Qhull output + exact differential check",
+   note=BASE_NOTE + " scipy.spatial.Voronoi (Qhull) is an external kernel whose output is the model's input; inputs within 1e-9 of a rounding tie or of the cut-off are rejected."),
 }
 
 NOT_APPLICABLE = {
